@@ -19,7 +19,8 @@ LEVEL = 'exploration'
 TECHNIQUE = ('Hypothesis-generated mixed-type rectangles with permutations, '
              'reshapes and partitions; reference model of Excel counting '
              'rules plus metamorphic relations; nested aggregates through a '
-             'real workbook')
+             'real workbook'
+             '; the same rectangle as bounded range / whole columns / whole rows / defined name over successive workbooks, also after to_file/from_file; order-independence probe')
 LEVEL_TEXT = ('Exploration over sampled rectangles up to 5x5 from a pool '
               'covering every value class (about 40% with an error); every '
               'rectangle is also permuted, reshaped and partitioned so the '
